@@ -243,6 +243,10 @@ class HSEnumerator(
         """
         if program:
             hash_program = hash(program)
+            # the successor of a program only makes sense once the enumeration
+            # from S has started: its first program is the successor of None
+            if 123891 not in self.succ[S]:
+                self.query(S, None)
         else:
             hash_program = 123891
 
